@@ -69,10 +69,12 @@ def strings_for(pid, t, rng, sc):
         add("cxnet", 3, 4, cap=450)
         add("cxnet", 3, 0, cap=150, sim=150, depth=7, sd=seed() + 3, minlen=5)
     else:
-        add("cxnet", 3, 5)
+        add("cxnet", 3, 5, cap=8000)
         add("cxnet", 4, 0, sim=2000, depth=9, sd=seed() + 3, minlen=4)
-        add("classical", 3, 4)
-        add("sections", 3, 4)
+        add("classical", 3, 3)                                 # all strings of <= 3 gates, a seeded sample of the 4-gate ones
+        add("classical", 3, 4, cap=10000)
+        add("sections", 3, 3)
+        add("sections", 3, 4, cap=16000)
         add("sections", 4, 0, sim=4000, depth=9, sd=seed() + 1, minlen=4)
         add("classical", 4, 0, sim=2000, depth=8, sd=seed() + 2, minlen=4)
     seen, res = set(), []
